@@ -276,6 +276,10 @@ func (e *fnEnc) wrap(t Term, typ types.Type) Term {
 		return t
 	}
 	if !signed {
+		if w == 64 && strings.Contains(e.ctr.Options["arith"], "nowrap") {
+			e.assume("machine arithmetic treated as mathematical: unsigned 64-bit +,-,* do not wrap in " + e.shortFuncName())
+			return t
+		}
 		return app(SInt, "mod", t, bigLit(pow2(w)))
 	}
 	if w == 64 {
@@ -1113,7 +1117,8 @@ func (e *fnEnc) tagOf(t types.Type) Term { return intLit(int64(e.eng.typeID(t)))
 func (e *fnEnc) makeInterface(c *blockCtx, in *ssa.MakeInterface) {
 	x := e.val(in.X)
 	xt := in.X.Type()
-	if _, isIface := types.Unalias(xt).Underlying().(*types.Interface); isIface {
+	_, isTP := types.Unalias(xt).(*types.TypeParam)
+	if _, isIface := types.Unalias(xt).Underlying().(*types.Interface); isIface && !isTP {
 		e.define(in, x)
 		return
 	}
